@@ -86,6 +86,8 @@ type Options struct {
 	Grace   time.Duration // surplus-trace grace period after the end
 	Lang    string
 	Seed    int64
+	// Instant: every request is answered at once, from the goroutine reading the trace stream
+	Instant bool
 	Auto    bool                // after the schedule: keep answering pending requests (random order) until completion
 	Perturb int                 // 0 none, 1 random delays at hooks
 	Defs    *schema.Definitions // optional pre-built definitions (round-trip checks)
@@ -133,6 +135,8 @@ type runner struct {
 	p      *prog.Program
 	closed bool
 	nans   map[string]int
+	// instant: see Options.Instant
+	instant bool
 }
 
 func (r *runner) hasBoundary(node string) bool {
@@ -198,6 +202,33 @@ func (r *runner) observe(tr tracing.ITrace) {
 		cancelled := t.Context() != nil && t.Context().Err() != nil
 		r.add(Rec{Ev: "req", Node: id, Occ: occ, Ok: !cancelled})
 		r.bump("req:" + id)
+		if r.instant {
+			// answered the moment it appears, from the goroutine that reads the trace stream
+			q := r.reqs[id][occ-1]
+			q.answered = true
+			vars := map[string]int{}
+			res := map[string]any{}
+			if n := r.p.Node(id); n != nil {
+				for _, w := range n.Writes {
+					if d := r.p.Dom[w]; len(d) > 0 {
+						// loops end after a few rounds: the second value of a two-valued variable
+						// ("again") is chosen for the first two requests only
+						v := d[0]
+						if len(d) == 2 && occ <= 2 {
+							v = d[1]
+						} else if len(d) > 2 {
+							v = d[occ%len(d)]
+						}
+						vars[w] = v
+						res[w] = v
+					}
+				}
+			}
+			r.add(Rec{Ev: "ans", Node: id, Occ: occ, Vars: copyVars(vars)})
+			r.mu.Unlock()
+			t.Do(bpmn.DoWithResults(res))
+			r.mu.Lock()
+		}
 	case bpmn.VisitTrace:
 		r.add(Rec{Ev: "visit", Node: nodeId(t.Node)})
 		r.bump("visit:" + nodeId(t.Node))
@@ -377,6 +408,7 @@ func callWithin(T time.Duration, f func()) bool {
 func Run(runIdx int, p *prog.Program, sch *Schedule, o Options) []Rec {
 	r := &runner{cnt: map[string]int{}, reqs: map[string][]*pendingReq{}, run: runIdx, p: p, nans: map[string]int{}}
 	r.cond = sync.NewCond(&r.mu)
+	r.instant = o.Instant
 	rng := rand.New(rand.NewSource(o.Seed + int64(runIdx)*7919))
 
 	defs := o.Defs
@@ -488,7 +520,7 @@ func Run(runIdx int, p *prog.Program, sch *Schedule, o Options) []Rec {
 	}
 
 	aborted := false
-	if startOK {
+	if startOK && !o.Instant {
 		for i := range sch.Steps {
 			st := &sch.Steps[i]
 			pre := st.Pre
